@@ -5,7 +5,7 @@ from common import *
 
 try:
     import mpmath
-    mpmath.mp.dps = 30
+    mpmath.mp.dps = 25
 except ImportError:   # check.py re-executes under python3-vt, which carries mpmath
     mpmath = None
 
@@ -283,15 +283,34 @@ def _mpfam(f):
     return lambda x: mpmath.exp(-(x - p0) ** 2 / (2 * p1 * p1)) + p2
 
 
+_FAMCACHE = {}
+
+
+def _pyfam(f):
+    k, p0, p1, p2 = f
+    if k == 0:
+        return lambda x: math.exp(-p0 * x) * math.cos(p1 * x + p2)
+    if k == 1:
+        return lambda x: 1 / (1 + p0 * (x - p1) ** 2) + p2
+    return lambda x: math.exp(-(x - p0) ** 2 / (2 * p1 * p1)) + p2
+
+
 def _fam_ref(f, a, b):
-    """(integral a..b, integral of |f| over the interval, first Simpson estimate) with mpmath"""
+    """(integral a..b with mpmath, integral of |f| over the interval (scale only: 400-point midpoint sum),
+    |first Simpson estimate|)"""
+    key = (f, a, b)
+    if key in _FAMCACHE:
+        return _FAMCACHE[key]
     g = _mpfam(f)
     lo, hi = min(a, b), max(a, b)
-    pts = [lo + (hi - lo) * i / 8 for i in range(9)]
-    I = mpmath.quad(g, pts)
-    A = mpmath.quad(lambda x: abs(g(x)), pts)
-    S = (hi - lo) / 6 * (g(mpmath.mpf(lo)) + 4 * g(mpmath.mpf((lo + hi) / 2)) + g(mpmath.mpf(hi)))
-    return (I if b >= a else -I), A, abs(S)
+    I = mpmath.quad(g, [lo + (hi - lo) * i / 4 for i in range(5)])
+    gf = _pyfam(f)
+    N = 400
+    A = sum(abs(gf(lo + (hi - lo) * (i + 0.5) / N)) for i in range(N)) * (hi - lo) / N
+    S = (hi - lo) / 6 * (gf(lo) + 4 * gf((lo + hi) / 2) + gf(hi))
+    r = ((I if b >= a else -I), mpmath.mpf(A), mpmath.mpf(abs(S)))
+    _FAMCACHE[key] = r
+    return r
 
 
 def _fams(tk, pos, n):
@@ -440,6 +459,41 @@ def compare(rq, impl, model, ctx):
                   "nested integral outside the method's accuracy of the exact iterated integral")
         out.append(fail("prop", clause, "%s: %r vs %.17g (scale %.3g)" % (m, v, float(ref), float(sc))))
     return out
+
+
+def oracle_only(rq, impl, ctx):
+    """property oracle without the Lean driver: the exact references are recomputed here"""
+    tk = rq.split()
+    op, a = tk[0], tk[1:]
+    if op in ("c13.selftest", "c13.checklimits", "c13.findeps"):
+        return []
+    if op in ("c13.default1", "c13.sphdefault"):
+        model = "ok"
+    elif op.startswith("c13.outcome"):
+        nm = a[0]
+        if op == "c13.outcome1":
+            known = nm in METHODS or a[1] == a[2]
+        elif op == "c13.outcomemc":
+            known = nm in MC
+        else:
+            known = nm in METHODS or nm in MC
+        model = "ok" if known else "err"
+    else:
+        nm = a[0]
+        if not (nm in METHODS or (nm in MC and op != "c13.int1" and op != "c13.fam1")):
+            model = "err"
+        elif op.startswith("c13.fam"):
+            model = "ok"
+        else:
+            dim = {"c13.int1": 1, "c13.int2": 2, "c13.int3": 3, "c13.sph": 3}[op]
+            L = [Fraction(fl(t)) for t in a[2:2 + 2 * dim]]
+            lims = [(L[2 * i], L[2 * i + 1]) for i in range(dim)]
+            ts, _ = _parse_terms(a, 2 + 2 * dim + (0 if dim == 1 else 1))
+            if op == "c13.sph":
+                ts = [(c, i + 2, j, k) for c, i, j, k in ts]
+            ex = _exact(ts, lims)
+            model = "ok %d/%d" % (ex.numerator, ex.denominator)
+    return [f for f in compare(rq, impl, model, ctx) if f["kind"] == "prop"]
 
 
 def finalize(ctx, exe):
